@@ -6,8 +6,8 @@ func init() {
 		Title: "The parallel map/reduce helper maps every item once and reduces serially",
 		Kernels: []Kernel{{
 			Name: "amr", Pkg: "common", Files: []string{"common/c20.go"}, Entry: "VerifAMR", Mode: "all", Race: true,
-			Quick:     map[string]int{"nmax": 3},
-			Thorough:  map[string]int{"nmax": 4},
+			Quick:     map[string]int{"nmax": 4},
+			Thorough:  map[string]int{"nmax": 5},
 			Reach:     []string{"mixed success and failure", "empty input"},
 			Functions: []string{"common.AsyncMapReduce[int,int,[]int]", "common.AsyncMapReduce$1", "common.AsyncMapReduce$2", "gqlerrors.ExtendErrorList", "gqlerrors.FormatError", "gqlerrors.NewError"},
 		}},
